@@ -5,7 +5,7 @@ package pongo2
 // (a) every delimiter-free byte string renders to itself.
 func HarnessC06Text() {
 	n := verifParam("n", 4)
-	src := symString(n)
+	src := symStringLen(0, n) // every length up to n (a defect may depend on the exact token length)
 	verifAssume(noDelims(src))
 	if verifKnown("C06-byte-0x01") {
 		// open finding: a 0x01 byte followed by more text truncates the template.
